@@ -92,7 +92,7 @@ def h_reliable(cfg):
     from onl.packet import TCPPacketGenerator, TCPSink, TCPReno, TCPCubic, Flow
     env = Environment()
     m, kd, ka = cfg['m'], cfg['kd'], cfg['ka']
-    flow = Flow(flow_id=0, src='s', dst='d', finish_time=INF, size=m * MSS)
+    flow = Flow(flow_id=0, src='s', dst='d', finish_time=INF, size=m * MSS, start_time=cfg.get('start'))
     cc = TCPReno() if cfg['cc'] == 'reno' else TCPCubic()
     snd = TCPPacketGenerator(env, flow, cc, element_id='s', rtt_estimate=cfg['rtt0'])
     sink = TCPSink(env)
@@ -149,6 +149,11 @@ def jobs(tier, seed):
             js.append({'harness': 'reliable', 'weight': 100,
                        'cfg': {'cc': cc, 'm': m, 'kd': m + 3, 'ka': 2, 'max_drops': 1, 'd1': 1.5, 'd2': 1.5, 'rtt0': 1.0,
                                'horizon': 100000}})
+    # a flow that starts later
+    for cc in ('reno', 'cubic'):
+        js.append({'harness': 'reliable', 'weight': 50,
+                   'cfg': {'cc': cc, 'm': 3, 'kd': 3, 'ka': 3, 'max_drops': 2, 'd1': 0.25, 'd2': 0.25, 'rtt0': 1.0, 'start': 2.5,
+                           'horizon': 100000}})
     # other initial RTT estimates: far below the path RTT (initial RTO 0.5 < RTT 1) and far above it
     for cc in ('reno', 'cubic'):
         for rtt0 in (0.25, 4.0):
